@@ -33,6 +33,13 @@ def inputs (o : Outcome) : List Nat := o.ins.flatten
 def liveCount (o : Outcome) (x : Nat) : Nat :=
   (o.outs.map fun l => l.countP fun s => s.2 && s.1 == x).sum + o.res.countP fun s => s.2 && s.1 == x
 
+/-- how many live elements of the result carry identity `x` -/
+def resCount (o : Outcome) (x : Nat) : Nat := o.res.countP fun s => s.2 && s.1 == x
+
+/-- **exactly once where the operation keeps all elements**: every element of argument `a` is live in the result exactly
+once, and nowhere else -/
+def ExactlyOnceInResult (o : Outcome) (a : Nat) : Prop := ∀ x ∈ o.insOf a, o.resCount x = 1 ∧ o.liveCount x = 1
+
 /-- **never copies an element of an argument that was passed as an rvalue** -/
 def NoCopyOfRvalue (o : Outcome) : Prop :=
   ∀ a, o.catOf a = some .rv → ∀ x ∈ o.insOf a, x ∉ o.cp
